@@ -46,11 +46,17 @@ def permitted(mode, entries, msg):
     return listed
 
 
+def common_kw(extra):
+    from nmea2000.consts import PhysicalQuantities as PQ
+    return {"plain": {}, "map": {"build_network_map": True},
+            "units+mfr": {"preferred_units": {PQ.ANGLE: "deg"}, "exclude_manufacturer_code": ["Garmin"]}}[extra]
+
+
 class Pair:
-    def __init__(self, mode, entries):
+    def __init__(self, mode, entries, extra="plain"):
         kw = {"exclude_pgns": list(entries)} if mode == "exclude" else {"include_pgns": list(entries)}
-        self.f = NMEA2000Decoder(**kw)
-        self.u = NMEA2000Decoder()
+        self.f = NMEA2000Decoder(**kw, **common_kw(extra))
+        self.u = NMEA2000Decoder(**common_kw(extra))
 
 
 def step_pair(s, packet):
@@ -63,7 +69,8 @@ def step_pair(s, packet):
 
 
 def run_config(args):
-    mode, entries, max_states = args
+    mode, entries, max_states = args[:3]
+    extra = args[3] if len(args) > 3 else "plain"
     evs = events()
     names = list(evs)
 
@@ -94,9 +101,9 @@ def run_config(args):
             facts["by_number"] = msg.PGN in [e for e in entries if isinstance(e, int)]
             facts["by_id"] = msg.id.lower() in [e.lower() for e in entries if isinstance(e, str)]
             facts["claim"] = msg.PGN == 60928
-        return {"kind": kind, "facts": facts, "detail": f"[{mode} {list(entries)} event {name}] {detail}",
+        return {"kind": kind, "facts": dict(facts, options=extra), "detail": f"[{mode} {list(entries)} options={extra} event {name}] {detail}",
                 "signature": f"{kind}:{mode}:{facts.get('entry_kinds')}:{facts.get('by_number')}:{facts.get('by_id')}:{facts.get('claim')}",
-                "case": {"mode": mode, "entries": list(entries)}}
+                "case": {"mode": mode, "entries": list(entries), "extra": extra}}
 
     def key(s):
         return common.canon_key([s.f, s.u])
@@ -104,7 +111,7 @@ def run_config(args):
     def nontrivial(s):
         return len(s.u.source_to_iso_name) > 0 or len(s.u.data) > 0 if hasattr(s.u, "data") else True
 
-    res = xstate.bfs(Pair(mode, entries), enabled, step, key, max_states=max_states, nontrivial=nontrivial, stop_after=6)
+    res = xstate.bfs(Pair(mode, entries, extra), enabled, step, key, max_states=max_states, nontrivial=nontrivial, stop_after=6)
     return {"states": res.states, "transitions": res.transitions, "depth": res.max_depth, "closed": res.closed, "cap": res.cap_hit,
             "nontrivial": res.nontrivial, "violations": res.violations, "sample": res.samples[:1]}
 
@@ -120,14 +127,16 @@ def configs(ctx):
 
 
 def run(ctx):
-    cfgs = configs(ctx)
-    results = common.pmap(run_config, [(m, e, 20000) for m, e in cfgs], chunksize=4)
+    cfgs = [(m, e, "plain") for m, e in configs(ctx)]
+    for extra in ("map", "units+mfr"):
+        cfgs += [(m, e, extra) for m, e in configs(ctx) if len(e) <= (2 if ctx.thorough else 1)]
+    results = common.pmap(run_config, [(m, e, 20000, x) for m, e, x in cfgs], chunksize=4)
     vios = []
     states = trans = nontriv = 0
     closed = True
     depth = 0
     samples = []
-    for (m, e), r in zip(cfgs, results):
+    for (m, e, _x), r in zip(cfgs, results):
         vios += r["violations"]
         states += r["states"]
         trans += r["transitions"]
@@ -153,7 +162,7 @@ def replay(ctx, rep):
     c = rep["case"]
     entries = tuple(c["entries"])
     evs = events()
-    s = Pair(c["mode"], entries)
+    s = Pair(c["mode"], entries, c.get("extra", "plain"))
     for name in c["history"]:
         (mf, ef), (mu, eu) = step_pair(s, evs[name])
         want = mu if (mu is not None and permitted(c["mode"], entries, mu)) else None
